@@ -20,12 +20,13 @@ def get_deps_paths() -> List[pathlib.Path]:
             "The {} environment variable was not set. Make sure your code is "
             "being executed by Conductor.".format(DEPS_ENV_VARIABLE_NAME)
         )
-    return list(
-        map(
-            pathlib.Path,
-            os.environ[DEPS_ENV_VARIABLE_NAME].split(DEPS_ENV_PATH_SEPARATOR),
-        )
-    )
+    # N.B. The variable is set to the empty string when there are no
+    # dependency output paths.
+    return [
+        pathlib.Path(path)
+        for path in os.environ[DEPS_ENV_VARIABLE_NAME].split(DEPS_ENV_PATH_SEPARATOR)
+        if len(path) > 0
+    ]
 
 
 def get_output_path() -> pathlib.Path:
